@@ -262,6 +262,22 @@ func RandRec(rng *rand.Rand, o RecOpts, ordinal int) oracle.Rec {
 	return r
 }
 
+// PadTo pads r with a trailing Z field so that its BAM block_size is exactly
+// target; it reports whether that was possible.
+func PadTo(r *oracle.Rec, target int) bool {
+	cur := len(oracle.EncodeBAMRecord(*r, true)) - 4
+	need := target - cur - 4 // tag, type and NUL of the padding field
+	if need < 0 {
+		return false
+	}
+	pad := make([]byte, need)
+	for i := range pad {
+		pad[i] = 'p'
+	}
+	r.Aux = append(r.Aux, oracle.AuxF{Tag: [2]byte{'z', 'p'}, Type: 'Z', Data: pad})
+	return true
+}
+
 // consistentCigar builds a CIGAR whose query-consuming lengths sum to seqLen
 // (or an empty CIGAR when that is impossible).
 func consistentCigar(rng *rand.Rand, nops, seqLen int) []oracle.CigOp {
@@ -296,7 +312,11 @@ func consistentCigar(rng *rand.Rand, nops, seqLen int) []oracle.CigOp {
 	parts = append(parts, seqLen-last)
 	var c []oracle.CigOp
 	if rng.Intn(4) == 0 {
-		c = append(c, oracle.CigOp{Op: 5, Len: 1 + rng.Intn(20)})
+		l := 1 + rng.Intn(20)
+		if rng.Intn(8) == 0 {
+			l = 1<<28 - 1
+		}
+		c = append(c, oracle.CigOp{Op: 5, Len: l})
 	}
 	for i, p := range parts {
 		op := []int{0, 1, 7, 8, 0, 0}[rng.Intn(6)]
@@ -305,7 +325,11 @@ func consistentCigar(rng *rand.Rand, nops, seqLen int) []oracle.CigOp {
 		}
 		c = append(c, oracle.CigOp{Op: op, Len: p})
 		if i < len(parts)-1 && rng.Intn(3) == 0 && len(c) < nops+8 {
-			c = append(c, oracle.CigOp{Op: []int{2, 3, 6}[rng.Intn(3)], Len: 1 + rng.Intn(1000)})
+			l := 1 + rng.Intn(1000)
+			if rng.Intn(6) == 0 {
+				l = []int{1<<28 - 1, 1<<28 - 2, 1 << 27, 0}[rng.Intn(4)] // the BAM limit of an operation length
+			}
+			c = append(c, oracle.CigOp{Op: []int{2, 3, 6}[rng.Intn(3)], Len: l})
 		}
 	}
 	if rng.Intn(4) == 0 {
